@@ -205,3 +205,39 @@ pub(crate) fn stub_no_rust_decimal(_num: i128, _scale: u32) -> Result<rust_decim
 	assert!(false, "verif: rust_decimal path reached in a harness that declared it unreachable");
 	Err(rust_decimal::Error::ExceedsMaximumPossibleValue)
 }
+
+/// union ["null","long"] with the hand-written lookup table (see union_lookup.rs)
+macro_rules! union_null_long {
+	($id:ident) => {
+		let mut __vars = std::mem::ManuallyDrop::new([
+			crate::schema::verif::nref(&crate::schema::verif::NULL),
+			crate::schema::verif::nref(&crate::schema::verif::LONG),
+		]);
+		let __lookup = crate::schema::verif::lookup_null_long(__vars[0], __vars[1]);
+		let __node = std::mem::ManuallyDrop::new(crate::schema::self_referential::SchemaNode::Union(
+			crate::schema::self_referential::Union {
+				variants: unsafe { Vec::from_raw_parts(__vars.as_mut_ptr(), 2, 2) },
+				per_type_lookup: __lookup,
+			},
+		));
+		let $id: &'static crate::schema::self_referential::SchemaNode<'static> =
+			unsafe { std::mem::transmute(&*__node) };
+	};
+}
+pub(crate) use union_null_long;
+
+/// Model of `std::io::copy` into a sink (std's version zero-initialises an 8 KiB stack buffer: 8192 loop
+/// iterations per call, out of reach): read until EOF in 4-byte pieces, return the number of bytes seen.
+/// Trusted: std::io::copy transfers every byte the reader yields and reports the count.
+pub(crate) fn stub_io_copy<R: std::io::Read + ?Sized, W: std::io::Write + ?Sized>(r: &mut R, w: &mut W) -> std::io::Result<u64> {
+	let mut total = 0u64;
+	let mut buf = [0u8; 4];
+	loop {
+		let n = r.read(&mut buf)?;
+		if n == 0 {
+			return Ok(total);
+		}
+		w.write_all(&buf[..n])?;
+		total += n as u64;
+	}
+}
